@@ -27,7 +27,7 @@ CLAIMS = {
  "C04": ("dominance on MIR CFG + type-directed discard detection on HIR + who-may-write table",
          "Shows for the build command that every file-creating or writing call is dominated by the no-error branches of parse and codegen and by the Ok continuation of "
          "merge_segments, that no other function may create files, that every error diagnostic built in the core carries a label unless tabled, that the failure exit "
-         "status is a non-zero constant on every path, that no Result<_, Diagnostics> is thrown away unreported anywhere in non-test code, and that the path rejecting an out-of-range branch still emits the instruction (so the error is reported at the branch).", "§4 C04"),
+         "status is a non-zero constant on every path, that no Result<_, Diagnostics> is thrown away unreported anywhere in non-test code, that the path rejecting an out-of-range branch still emits the instruction (so the error is reported at the branch), and that every push onto the import stack, the scope path and the macro depth meets its pop on every path to a return, error exits included (so an error leaves nothing behind for the next pass).", "§4 C04"),
  "C05": ("printer/parser coverage rules on typed HIR + extracted combinator grammar",
          "Every field of every AST variant is printed; every trivia-carrying element a parser closure binds is moved, mapped or has its trivia read; elements bound to `_` "
          "consume constant text or nothing; no bound element reaches the tree only through a lossy Option combinator; swallow-all (`rest`) never occurs without a diagnostic; the file parser is all_consuming; case normalisation never touches "
@@ -55,15 +55,15 @@ CLAIMS = {
          "reported. Environment nondeterminism is not decided.", "§4 C10"),
  "C11": ("must-pass-through on MIR + two interprocedural label propagations (target vs physical address space)",
          "Single emission choke point with a source-map entry of exactly the emitted length on every path; no comparison or subtraction mixes a target-space address with "
-         "a physical one without the relocation offset; macro re-attribution only under the listing option and by position; half-open address lookups; no context field is overwritten before and read after a nested activation of the code generator without being restored (re-entrancy analysis); listing rows are cut at address gaps, read from the entry's own segment and written to distinct files; the row without bytes and the rows with bytes are decided on the same collection (every source line gets a row). Row layout on concrete programs is not decided.", "§4 C11"),
+         "a physical one without the relocation offset; macro re-attribution only under the listing option and by position; half-open address lookups; no context field is overwritten before and read after a nested activation of the code generator without being restored (re-entrancy analysis); listing rows are cut at address gaps, read from the entry's own segment and written to distinct files; the row without bytes and the rows with bytes are decided on the same collection (every source line gets a row); no collection there is keyed by a target address alone. Row layout on concrete programs is not decided.", "§4 C11"),
  "C12": ("formatter coverage and trivia-carrier rules on typed HIR + dominance on MIR",
          "Every text-carrying field of every AST variant is emitted; a Located emitted through `.data` is the token's leading element or tabled (so its comments cannot be lost); "
-         "both comment kinds become comment chunks and only blank lines are suppressed; `mos format` writes only after the whole project parsed; a chunk-dropping decision never depends on the text of the line. Token-sequence and byte "
+         "both comment kinds become comment chunks and only blank lines are suppressed; `mos format` writes only after the whole project parsed; a chunk-dropping decision never depends on the text of the line; no Located value of an argument list is written through its data alone and no trivia list is copied selectively by item kind. Token-sequence and byte "
          "equality after formatting are not decided.", "§4 C12"),
  "C14": ("field-effect/dominance on MIR, label propagation CLIENTPOS/BYTELEN, hash-order classification, capability table",
          "Analysis results are reset before any early return and, on every path from where a handler reads the client's text, the text is stored, the project re-analysed and diagnostics republished (must-call with wrapper summaries); diagnostics of files that left the project are withdrawn; request handlers do not mutate the shared analysis; "
          "client positions never reach a panicking index; client URIs are never force-unwrapped; no hash order in answers; positions sent are not byte offsets; advertised "
-         "capabilities equal registered handlers; every field of the server context outside a five-line table is re-derived on every path of perform_codegen and request handlers store into no other field; range-only answers (lenses, highlights, semantic tokens, document symbols) are confined to the requested document. Equality with a fresh server on concrete histories is not decided.", "§4 C14"),
+         "capabilities equal registered handlers; every field of the server context outside a five-line table is re-derived on every path of perform_codegen and request handlers store into no other field; range-only answers (lenses, highlights, semantic tokens, document symbols) are confined to the requested document; the record of what the client was told is written by the publisher only; no constant is added to the byte index of a character found by predicate. Equality with a fresh server on concrete histories is not decided.", "§4 C14"),
  "C15": ("analysis-path coverage on typed HIR (completeness clause only)",
          "Every expression, interpolated string and block of every statement kind reaches a usage-tracking evaluation on the path the language server takes; the usage database "
          "and the evaluator resolve through one traversal; usages carry per-segment spans; rename builds its edits from the definition and all recorded usages of every import of the defining file, in original-document coordinates and only where the recorded text is the symbol's name (an import's alias stays), and not at all where an occurrence also stands for a symbol defined elsewhere; a usage carries the scope its symbol is defined in. Everything "
